@@ -11,11 +11,23 @@
 
 using namespace PhQ;
 
+// JSON string body: always valid UTF-8 (a table entry that is not - e.g. a dangling string_view - is dumped with U+FFFD for every offending byte, so that the
+// table checks can still run and report it)
 static std::string jesc(std::string_view s) {
   std::string o;
-  for (unsigned char c : s) {
-    if (c == '"') o += "\\\""; else if (c == '\\') o += "\\\\"; else if (c == '\n') o += "\\n";
-    else if (c < 0x20) { char b[8]; std::snprintf(b, sizeof b, "\\u%04x", c); o += b; } else o += (char)c;
+  for (std::size_t i = 0; i < s.size();) {
+    const unsigned char c = (unsigned char)s[i];
+    if (c < 0x80) {
+      if (c == '"') o += "\\\""; else if (c == '\\') o += "\\\\"; else if (c == '\n') o += "\\n";
+      else if (c < 0x20 || c == 0x7f) { char b[8]; std::snprintf(b, sizeof b, "\\u%04x", c); o += b; } else o += (char)c;
+      i++; continue;
+    }
+    const int len = (c >= 0xc2 && c <= 0xdf) ? 2 : (c >= 0xe0 && c <= 0xef) ? 3 : (c >= 0xf0 && c <= 0xf4) ? 4 : 0;
+    bool ok = len != 0 && i + (std::size_t)len <= s.size();
+    for (int k = 1; ok && k < len; k++) if (((unsigned char)s[i + (std::size_t)k] & 0xc0) != 0x80) ok = false;
+    if (ok && len == 3) { const unsigned char d = (unsigned char)s[i + 1]; if ((c == 0xe0 && d < 0xa0) || (c == 0xed && d > 0x9f)) ok = false; }
+    if (ok && len == 4) { const unsigned char d = (unsigned char)s[i + 1]; if ((c == 0xf0 && d < 0x90) || (c == 0xf4 && d > 0x8f)) ok = false; }
+    if (ok) { o.append(s.substr(i, (std::size_t)len)); i += (std::size_t)len; } else { o += "\\ufffd"; i++; }
   }
   return o;
 }
